@@ -143,7 +143,9 @@ def check_C16(c):
         for seq in r['inputs']:
             inputs.append('\n\n'.join(c.rng.choice(GOOD[model] if k == 'good' else BAD[model]) for k in seq) + '\n')
         stdin = len(inputs) == 1 and c.rng.random() < 0.5
-        jobs.append(('tr_clicheck', dict(inputs=inputs, model=model, stdin=stdin, subproc=c.rng.random() < 0.05, quiet=c.rng.random() < 0.08)))
+        extra = c.rng.choice([[], [], [], ['--reconfigure', 'canonical'], ['--reconfigure', 'original'], ['--rearrange', 'canonical'], ['--compact']])
+        jobs.append(('tr_clicheck', dict(inputs=inputs, model=model, stdin=stdin, subproc=c.rng.random() < 0.05, quiet=c.rng.random() < 0.08,
+                                         extra=extra)))
     n_cli = len(jobs)
     # (2) Model.errors on all small triple lists and random ones
     roles = [':instance', ':ARG0', ':foo', ':ARG0-of', ':foo-of', ':ARG0-of-of', ':mod', ':op1', ':op', ':TOP', ':ARG0abc', ':mod-fo', ':op1xof']
